@@ -87,6 +87,8 @@ pub struct Crate {
     /// `macro_rules!` definitions by name (their token streams), for the item-level invocations
     pub macro_defs: HashMap<String, proc_macro2::TokenStream>,
     pub macro_notes: Vec<String>,
+    /// (type, trait) -> names of the functions its impl blocks define
+    pub impl_fns: HashMap<(String, String), Vec<String>>,
 }
 
 pub fn fnv(s: &str) -> String {
@@ -157,6 +159,7 @@ impl Crate {
                 let tr = im.trait_.as_ref().map(|(_, p, _)| trait_name(p)).unwrap_or_default();
                 for ii in &im.items {
                     if let ImplItem::Fn(f) = ii {
+                        self.impl_fns.entry((ty.clone(), tr.clone())).or_default().push(f.sig.ident.to_string());
                         self.add_fn(file, format!("{}::{}", ty, f.sig.ident), Some(ty.clone()), tr.clone(), &f.sig, &f.block);
                     }
                 }
@@ -413,6 +416,10 @@ impl Crate {
                 if fs.len() != 1 {
                     return Err(format!("expected one impl PartialOrd for {}, found {}", ty, fs.len()));
                 }
+                let defined = self.impl_fns.get(&(ty.to_string(), "PartialOrd".to_string())).cloned().unwrap_or_default();
+                if defined.len() != 1 {
+                    return Err(format!("impl PartialOrd for {} overrides {}", ty, defined.join(", ")));
+                }
                 let body = fs[0].block.to_token_stream().to_string().replace(' ', "");
                 let other = match fs[0].sig.inputs.iter().nth(1) {
                     Some(FnArg::Typed(p)) => p.pat.to_token_stream().to_string(),
@@ -442,6 +449,15 @@ impl Crate {
                 entry.insert("line".into(), Json::N(f.line as i64));
                 entry.insert("end_line".into(), Json::N(f.end_line as i64));
                 entry.insert("body_hash".into(), Json::S(f.hash.clone()));
+                if !tr.is_empty() {
+                    // an impl of PartialEq / Ord / Display / Hash / From that overrides a provided method (`ne`, `max`,
+                    // `lt`, …) changes the meaning of operators and std functions the translation takes as given
+                    let defined = self.impl_fns.get(&(ty.to_string(), tr.to_string())).cloned().unwrap_or_default();
+                    let extra: Vec<String> = defined.into_iter().filter(|n| n != name).collect();
+                    if !extra.is_empty() {
+                        return Err(format!("impl {} for {} also defines {}", tr, ty, extra.join(", ")));
+                    }
+                }
                 let mut fx = Fx::new(self, Some(ty.to_string()));
                 let text = fx.function(f, &lname, tr);
                 entry.insert("sites".into(), Json::A(fx.sites.iter().map(|s| s.json()).collect()));
@@ -688,6 +704,11 @@ pub fn lean_type(t: &Type, self_ty: Option<&str>) -> R<String> {
                 Err(format!("type {} needs an argument", name))
             };
             match name.as_str() {
+                "Result" => {
+                    let ok = arg(0)?;
+                    let err = arg(1)?;
+                    return Ok(format!("(Except {} {})", err, ok));
+                }
                 "Self" => {
                     let s = self_ty.ok_or("Self outside an impl")?;
                     lean_type_name(s).map(|x| x.to_string()).ok_or_else(|| format!("unmapped type {}", s))
@@ -830,4 +851,9 @@ pub fn parser_output(sig: &Signature) -> Option<Type> {
         }
     }
     None
+}
+
+
+pub fn struct_field_conv(struct_name: &str, field: &str) -> Option<(&'static str, &'static str)> {
+    config::STRUCT_FIELD_CONV.iter().find(|(s, f, _, _)| *s == struct_name && *f == field).map(|(_, _, m, c)| (*m, *c))
 }
